@@ -16,6 +16,8 @@ Check(e) ==
   THEN [AllOK EXCEPT !.status = (e.status = 405), !.once = (e.extraHeaders = 0), !.untouched = (e.cmds = 0)]
   ELSE IF e.body # "valid"
   THEN [AllOK EXCEPT !.status = (e.status \in 400..499), !.once = (e.extraHeaders = 0), !.untouched = (e.cmds = 0)]
+  ELSE IF "dp" \in DOMAIN e /\ e.dp = "up4"
+  THEN [AllOK EXCEPT !.status = (e.status = 201), !.once = (e.extraHeaders = 0), !.programmed = (e.cmds = 1 /\ Up4OK(e))]
   ELSE [AllOK EXCEPT !.status = (e.status = 201), !.once = (e.extraHeaders = 0),
                      !.programmed = (e.cmds = 2 /\ DirOK(e.up, e.ul, e.unit, e.ulBurst) /\ DirOK(e.down, e.dl, e.unit, e.dlBurst))]
 
